@@ -4,7 +4,8 @@ from .pcommon import *
 def run_check(tier, seed, replay=None):
     n, m = (400, 10) if tier == "quick" else (6000, 25)
     return parser_family_check("C03", tier, seed, replay, CODE_CONTENT | CODE_PANIC,
-        suites=[("mut", "c03", ["--n", str(n), "--mutants", str(m)], None),
+        suites=[("conforming", "c02", [], None),   # every opcode / enumerant / mask bit must be ACCEPTED and delivered intact
+                ("mut", "c03", ["--n", str(n), "--mutants", str(m)], None),
                 ("specop", "specop", [], None)],
         required_tags=["wellformed", "truncate", "wordcount", "opcode", "substitute", "delete-word", "insert-word", "header",
                        "extent-past-end", "trailing", "specop"],
